@@ -92,3 +92,12 @@ Example C01_example_refuse_and_adopt :
   check_adoption Native false ow o [] CPNone = Adopt /\
   permitted Native false ow o [] CPPrevent = false /\ permitted Native false ow o [] CPNone = true.
 Proof. vm_compute. repeat split. Qed.
+
+(** The monitor evaluated on the implementation's passes (coq/corr/C01Corr.v: every write justified;
+    non-permitted objects untouched; refusal reported; permitted adoption carried out) accepts every
+    pass of the model — rollout and teardown, every world, phase, owner, strategy, forced adoption on or
+    off, with or without third-party activity between read and write. *)
+From PKOCorr Require Import PhaseCorr C01Corr C05Sound C01Sound.
+Theorem C01_monitor_sound : forall c : pcase, C01Corr.monitor (set_obs c (model_run c)) = true.
+Proof. exact C01Sound.monitor_sound. Qed.
+Print Assumptions C01_monitor_sound.
